@@ -5,13 +5,35 @@ import itertools
 from . import cdrv, nm, rx, work
 
 
-def check_languages(ctx, todo, rng, KEY, strings_budget=90, sweep_states=3, per_batch=30, max_reps=6):
-    """todo: [(pattern_source, semantic_regex, extra_strings|None)]"""
+class RxAuto:
+    """automaton view of a semantic regex (rx.py tuples)"""
+    def __init__(self, sem):
+        self.sem = sem
+
+    def start(self):
+        return self.sem
+
+    def step(self, q, b):
+        d = rx.deriv(q, b)
+        return None if d == rx.EMPTY else d
+
+    def accepting(self, q):
+        return rx.nullable(q)
+
+    def sets(self):
+        return rx.sets_in(self.sem)
+
+
+def check_languages(ctx, todo, rng, KEY, strings_budget=90, sweep_states=3, per_batch=30, max_reps=6, extra_args=()):
+    """todo: [(pattern_source | full program source, semantic_regex | automaton, extra_strings|None)]
+    automaton interface: start(), step(q, byte) -> q' | None (dead: FAIL at this byte), accepting(q) (end() == DONE), sets()"""
     for chunk in work.chunked(todo, per_batch):
         progs = []
         for i, (psrc, sem, extra_strings) in enumerate(chunk):
-            src = "parser {\n %s;\n end;\n}\n" % psrc
-            args = ["-feof-support", "-findirect-start-ptr", rng.choice(["-O0", "-O1", "-O2", "-O3"])]
+            src = psrc if "parser {" in psrc else "parser {\n %s;\n end;\n}\n" % psrc
+            if isinstance(sem, tuple):
+                sem = RxAuto(sem)
+            args = ["-feof-support", "-findirect-start-ptr", rng.choice(["-O0", "-O1", "-O2", "-O3"])] + list(extra_args)
             r = nm.compile_source(src, args, name="p%d" % i)
             if not r.ok:
                 ctx.count("rejected_by_nmfu" if r.status == "rejected" else "internal_error_dropped")
@@ -27,7 +49,7 @@ def check_languages(ctx, todo, rng, KEY, strings_budget=90, sweep_states=3, per_
         plan = {}
         for p in batch.live:
             sem = p.meta["sem"]
-            parts = rx.partition(rx.sets_in(sem))
+            parts = rx.partition(sem.sets())
             reps = sorted(min(x) for x in parts)
             # a byte outside every set, and the extremes
             if len(reps) > max_reps:
@@ -45,15 +67,15 @@ def check_languages(ctx, todo, rng, KEY, strings_budget=90, sweep_states=3, per_
                 runs.append((rid, p, lines))
                 plan[rid] = ("str", p, bytes(w))
             # sweeps from the first derivative states in BFS order
-            seen = {sem: b""}
-            order = [sem]
+            seen = {sem.start(): b""}
+            order = [sem.start()]
             qi = 0
             while qi < len(order) and len(order) < sweep_states:
                 q = order[qi]
                 qi += 1
                 for b in reps:
-                    d = rx.deriv(q, b)
-                    if d != rx.EMPTY and d not in seen:
+                    d = sem.step(q, b)
+                    if d is not None and d not in seen:
                         seen[d] = seen[q] + bytes([b])
                         order.append(d)
             for wi, q in enumerate(order[:sweep_states]):
@@ -77,15 +99,15 @@ def check_languages(ctx, todo, rng, KEY, strings_budget=90, sweep_states=3, per_
             if kind == "str":
                 rets = [e for e in run_.events if e[0] == "R"]
                 # expected sequence
-                q = sem
-                exp = [("C", 2 if rx.nullable(q) else 1, None)]
+                q = sem.start()
+                exp = [("C", 2 if sem.accepting(q) else 1, None)]
                 for i, b in enumerate(w):
-                    q = rx.deriv(q, b)
-                    if q == rx.EMPTY:
+                    q = sem.step(q, b)
+                    if q is None:
                         exp.append(("F", 1, i))
                         break
                     exp.append(("F", 0, i + 1))
-                    exp.append(("C", 2 if rx.nullable(q) else 1, None))
+                    exp.append(("C", 2 if sem.accepting(q) else 1, None))
                 got = [(e[1], e[3], e[4] if e[1] == "F" else None) for e in rets if e[1] in ("F", "C")]
                 ctx.count("prefix_observations", len(got))
                 if any(x[0] == "C" and x[1] == 2 for x in exp):
@@ -103,9 +125,9 @@ def check_languages(ctx, todo, rng, KEY, strings_budget=90, sweep_states=3, per_
                     ctx.violation(KEY + ":" + what, "regex %s on prefix %r: expected %s, observed %s" % (p.meta["regex"], w[:nbytes], e_, g_),
                                   dict(base, input_hex=w.hex(), expected=exp, observed=got))
             else:
-                q = sem
+                q = sem.start()
                 for b in w:
-                    q = rx.deriv(q, b)
+                    q = sem.step(q, b)
                 sw = next((e for e in run_.events if e[0] == "W"), None)
                 if sw is None or len(sw[1]) != 256:
                     ctx.count("sweep_missing")
@@ -114,14 +136,14 @@ def check_languages(ctx, todo, rng, KEY, strings_budget=90, sweep_states=3, per_
                 ctx.count("byte_steps_swept", 256)
                 ctx.nontrivial((p.meta["regex"], "sweep", w.hex()))
                 for b in range(256):
-                    d = rx.deriv(q, b)
+                    d = sem.step(q, b)
                     code, ecode, adv = sw[1][b]
-                    if d == rx.EMPTY:
+                    if d is None:
                         want = (1, 15, 0)
                     else:
-                        want = (0, 2 if rx.nullable(d) else 1, 1)
+                        want = (0, 2 if sem.accepting(d) else 1, 1)
                     if (code, ecode, adv) != want:
-                        what = "byte-class:" + ("accepts-extra-byte" if d == rx.EMPTY else ("rejects-byte" if code == 1 else "acceptance-after-byte"))
+                        what = "byte-class:" + ("accepts-extra-byte" if d is None else ("rejects-byte" if code == 1 else "acceptance-after-byte"))
                         ctx.violation(KEY + ":" + what, "regex %s after %r: byte 0x%02x expected (feed,end,advance)=%s observed %s" %
                                       (p.meta["regex"], w, b, want, (code, ecode, adv)), dict(base, prefix_hex=w.hex(), byte=b))
                         break
